@@ -2,7 +2,7 @@
    route_status is computed from the tables regenerated from /repo (routing table, version windows of
    every handler overload); doc_status from the documented surface (/verif/spec/surface.json). *)
 From Coq Require Import ZArith List Bool.
-From PV Require Import Gen.GenConsts Gen.GenSurfaceSpec Spec.Surface Proofs.C14.
+From PV Require Import Gen.GenConsts Gen.GenSurfaceSpec Spec.Surface Proofs.C14 Spec.Fields Proofs.C14f.
 Import ListNotations.
 Open Scope Z_scope.
 
@@ -33,3 +33,17 @@ Theorem C14_negotiation : forall h,
   end.
 Proof. exact c14_negotiation. Qed.
 Print Assumptions C14_negotiation.
+
+(* request members and query parameters: for every documented member of every operation that takes a body or query
+   parameters (Gen/GenSurfaceSpec.v:doc_fields, 50 entries transcribed from the API reference) and every minor version at
+   which the operation exists, the schema the operation validates with at that version - read from the schemas
+   REGENERATED from placement/schemas/*.py - rejects the member below its documented version and accepts (requires) it from
+   that version on; `type` entries: the value is an object from that version on (the list form of allocations below 1.12,
+   the bare aggregate list below 1.19).  1593 (member, version) facts, decided by complete evaluation. *)
+Theorem C14_fields : forall f v, In f doc_fields -> In v (field_versions f) -> field_ok v f = true.
+Proof. exact c14_fields. Qed.
+Print Assumptions C14_fields.
+
+Theorem C14_field_versions : forall n lo v, In v (versions_from n lo) <-> lo <= v < lo + Z.of_nat n.
+Proof. exact versions_from_spec. Qed.
+Print Assumptions C14_field_versions.
